@@ -1558,7 +1558,18 @@ def _read_buffers(
                     from ..path.entities import Line
 
                     kwargs["vertices"] = access[attr["POSITION"]]
-                    kwargs["entities"] = [Line(points=np.arange(len(kwargs["vertices"])))]
+                    # GL_LINES are independent segments: every two vertices are
+                    # one line, they are NOT one polyline through all vertices
+                    pairs = np.arange(len(kwargs["vertices"]) // 2 * 2).reshape((-1, 2))
+                    # a segment starting where the previous one ended continues it
+                    joined = (
+                        kwargs["vertices"][pairs[1:, 0]] == kwargs["vertices"][pairs[:-1, 1]]
+                    ).all(axis=1)
+                    kwargs["entities"] = [
+                        Line(points=np.append(chunk[:, 0], chunk[-1, 1]))
+                        for chunk in np.split(pairs, np.nonzero(~joined)[0] + 1)
+                        if len(chunk) > 0
+                    ]
 
                     # custom attributes starting with a `_`
                     custom = {
